@@ -8,7 +8,7 @@ window invariant on the live tables.  Workload: exhaustive small scope + stratif
 """
 import itertools
 
-from vlib import core, ev, domain, histories as H, monitors
+from vlib import gen, wire, core, ev, domain, histories as H, monitors
 
 LEVEL = 'exploration'
 RULE = ('histories = (a) exhaustive small scope: all sequences up to length 4 (quick) / 5 (thorough) over 2 threads x 2 '
@@ -335,6 +335,38 @@ def long_windows(res, ctx, rng):
         res.count('long_window_histories')
 
 
+def front_end_sequences(res, ctx, rng):
+    """One front-end object asked for the traces of several dumps in turn: every dump is paired on its own.  The earlier
+    dump ends with operations still open (both pairing domains), the later one begins with the matching ENDs."""
+    import io
+    from pykdebugparser.pykdebugparser import PyKdebugParser
+    inv = H.inventory()
+    for _ in range(ctx.pick(12, 300)):
+        tid = rng.choice((5, 0, 1 << 40))
+        a_code = rng.choice(inv['bsd'])
+        t_code = rng.choice(('TRACE_STRING_GLOBAL', 'TRACE_STRING_THREADNAME', 'TRACE_STRING_THREADNAME_PREV'))
+        dump_a = [mk_event(rng, 1000, 'BSC_getpid', 1, tid), mk_event(rng, 1007, 'BSC_getpid', 2, tid),
+                  mk_event(rng, 1014, a_code, 1, tid), mk_event(rng, 1021, t_code, 1, tid), mk_event(rng, 1028, t_code, 0, tid)]
+        dump_b = [mk_event(rng, 2000, t_code, 2, tid), mk_event(rng, 2007, a_code, 2, tid),
+                  mk_event(rng, 2014, 'BSC_getppid', 1, tid), mk_event(rng, 2021, 'BSC_getppid', 2, tid)]
+        files = [wire.v2_file([(tid, 100, b'proc', b'')], 8, gen.events_to_records(d)) for d in (dump_a, dump_b)]
+        one = PyKdebugParser()
+        case = {'files': files}
+        try:
+            for data in files:
+                got = [[(e.timestamp, e.debugid) for e in t.ktraces] for t in one.traces(io.BytesIO(data))]
+                fresh = [[(e.timestamp, e.debugid) for e in t.ktraces] for t in PyKdebugParser().traces(io.BytesIO(data))]
+                res.count('front_end_sequence_requests')
+                if got != fresh:
+                    res.violation('c04-window-carried-over-from-an-earlier-dump', f'one front-end object, second dump: traces '
+                                  f'{got[:3]} differ from those of a fresh object {fresh[:3]} (operations left open by the '
+                                  f'earlier dump: {a_code}, {t_code} on thread {tid})', case)
+                    return
+        except Exception as x:
+            res.violation(f'c04-raises-{core.exc_name(x)}', f'sequence of dumps on one front-end object: {x!r}', case)
+            return
+
+
 def repo_tests_under_contracts(res):
     """The repository's own tests, run in a subprocess with the contracts attached."""
     import json
@@ -379,6 +411,7 @@ def run(ctx):
     small_scope(res, ctx, rng)
     random_histories(res, ctx, rng)
     long_windows(res, ctx, rng)
+    front_end_sequences(res, ctx, rng)
     res.count('invariant_evaluations', InvariantLog.evaluations)
     res.notes['invariant_backend'] = 'icontract.invariant on TracesParser' if monitors.HAVE_ICONTRACT else 'absent'
     for f in InvariantLog.failures:
